@@ -117,6 +117,18 @@ func (e *Engine) intrinsic(fr *Frame, st *State, name string, fn *ssa.Function, 
 		return e.name(tSel(args[0].(T), e.toTerm(args[1], nil)), "ag")
 	case "GvcAset":
 		return e.name(tStore(args[0].(T), e.toTerm(args[1], nil), e.toTerm(args[2], nil)), "as")
+	case "GvcLoopFresh":
+		x := args[0].(T)
+		if e.loopTimeCtx == "" {
+			e.unsupported("GvcLoopFresh outside a loop clause")
+		}
+		switch x.Sort {
+		case sRef:
+			return T{fmt.Sprintf("(>= (newid %s) %s)", x.S, e.loopTimeCtx), sBool}
+		case sSlice:
+			return T{fmt.Sprintf("(>= (newid (sbase %s)) %s)", x.S, e.loopTimeCtx), sBool}
+		}
+		e.unsupported("GvcLoopFresh on sort %s", x.Sort)
 	case "GvcFresh":
 		x := args[0].(T)
 		switch x.Sort {
@@ -590,7 +602,7 @@ func init() {
 		},
 		"strings.Compare": func(e *Engine, fr *Frame, st *State, fn *ssa.Function, args []Val, pos token.Pos) Val {
 			a, b := args[0].(T), args[1].(T)
-			return e.name(T{fmt.Sprintf("(ite (= %s %s) 0 (ite (str.< %s %s) (- 1) 1))", a.S, b.S, a.S, b.S), sInt}, "cmp")
+			return e.name(T{fmt.Sprintf("(ite (= %s %s) 0 (ite (str_lt %s %s) (- 1) 1))", a.S, b.S, a.S, b.S), sInt}, "cmp")
 		},
 		"strings.EqualFold":       nil,
 		"slices.BinarySearchFunc": modelBinarySearchFunc,
